@@ -14,3 +14,4 @@ import QlibcModel.Props.C03
 #print axioms Qlibc.Props.C03.traversal_any_history
 #print axioms Qlibc.Shapes.Tree.widths_as_modelled
 #print axioms Qlibc.Shapes.Tree.no_hidden_static_state
+#print axioms Qlibc.Shapes.Tree.asserts_side_effect_free
